@@ -10,6 +10,17 @@ TRUST = ("trusts the Go type checker, go/cfg, go/ssa, the documented semantics o
 
 # property id -> (claimed text, technique, design_ref)   (only built properties appear here)
 CLAIMS = {
+    "C04": (
+        "Decides necessary conditions of the calculate/serialise fixpoint: fields the tax-total recalculation accumulates into are reset "
+        "unconditionally first, and document totals are reset before being read; every range over a map in library code is classified "
+        "order-independent (keyed writes, flags, key-equality searches, sorted-afterwards collections) or is an accepted, caller-less helper "
+        "— i18n.String's arbitrary-entry fallback is unreachable because all 1049 literals have the default language or one entry; clocks "
+        "and random identifiers are referenced only by cal/uuid/dsig and every cal.Today*/uuid.V* in calculation code is guarded by an "
+        "emptiness test or belongs to correct/replicate/New*; custom (un)marshallers lose no member and schema.Object keeps the document's "
+        "own $schema; scenario notes are removed first and appended only when absent; Validate/Digest/Verify/Extract and the header comparison "
+        "neither store through nor sort anything reachable from the envelope. Not decided: byte equality of two runs, regex normalisers.",
+        "static analysis: reset-before-accumulate rule, effect classification of map loops, who-may-call fencing with branch-fact guards, marshaller shape rules, effect (no-store) rule",
+        "§4 C04"),
     "C16": (
         "Decides: Envelope.Correct/Replicate store nothing through the source, call only Clone on its document, operate on the clone and "
         "return Envelop(clone) — a new envelope with a freshly generated header identifier, no stamps and an empty signature list; Clone is "
